@@ -34,7 +34,9 @@ func (x Expr) Append(buf []byte, brackets ...bool) []byte {
 		}
 		buf = frag.Append(buf, bracket, i == 0)
 	}
-	if 0 < len(x) {
+	if 0 < len(x) && !bracket {
+		// A trailing descent in dot form is written as .. while the bracket
+		// form, [..], is already complete.
 		if _, ok := x[len(x)-1].(Descent); ok {
 			buf = append(buf, '.')
 		}
